@@ -9,7 +9,7 @@ Record pstate := { lb : option meta; nb : option meta; cb : option meta; bad : l
 Definition pempty : pstate := {| lb := None; nb := None; cb := None; bad := [] |}.
 
 Inductive evkind := EvInstallSuccess | EvInstallFailure | EvDownload.
-Inductive evmsg := MsgNone | MsgInit | MsgEngine.
+Inductive evmsg := MsgNone | MsgInit | MsgEngine | MsgOther (s : string).   (* MsgOther: a message read back from a state.json that this library version did not write *)
 Record event := { e_kind : evkind; e_num : N; e_app : string; e_rel : string; e_msg : evmsg }.
 Record sstate := { rel : string; evq : list event }.
 
